@@ -148,9 +148,13 @@ def judgeRoute (id : String) (fs : List String) (outs : List String) : String :=
     | none => badline id
     | some pred =>
     -- for arbitrary ("?") requests the members need not decode: the model then only predicts that no OTHER
-    -- method runs (the predicted call, or a client error without any call)
+    -- method runs (the predicted call, or a client error of the operation's input decoder without any call — not one
+    -- of the codes `prepare` itself answers)
+    let prepareCodes := ["NotImplemented", "MethodNotAllowed", "AccessDenied", "InvalidPolicyDocument",
+      "EntityTooSmall", "EntityTooLarge", "MissingContentLength", "IncompleteBody", "InternalError"]
     let modelOk := match pred.code with
-      | none => (pred.calls == calls && st / 100 == 2) || (intended == "?" && calls.isEmpty && st ≥ 400)
+      | none => (pred.calls == calls && st / 100 == 2) ||
+          (intended == "?" && calls.isEmpty && st ≥ 400 && !prepareCodes.contains code)
       | some c => calls.isEmpty && st ≥ 400 && code == c
     let modelStr := match pred.code with
       | none => ",".intercalate pred.calls
